@@ -36,6 +36,8 @@ Family(b) ==
   <<[rel |-> "base", k |-> 0, arg |-> arg]>>
   \o <<[rel |-> "refl", k |-> 0, arg |-> [prems |-> Append(arg.prems, arg.conc), conc |-> arg.conc]]>>
   \o [j \in 1..Len(arg.prems) |-> [rel |-> "refl", k |-> j, arg |-> [prems |-> arg.prems, conc |-> arg.prems[j]]]]
+  \* reflexivity with a heavily repeated premise
+  \o <<[rel |-> "refl", k |-> 100, arg |-> [prems |-> [j \in 1..8 |-> arg.conc], conc |-> arg.conc]]>>
   \o [j \in 1..Len(Pool(arg)) |-> [rel |-> "weak", k |-> j, arg |-> [prems |-> Append(arg.prems, Pool(arg)[j]), conc |-> arg.conc]]]
   \o [j \in 1..Len(Pool(arg)) |-> [rel |-> "weakfront", k |-> j, arg |-> [prems |-> <<Pool(arg)[j]>> \o arg.prems, conc |-> arg.conc]]]
   \o [j \in 1..Len(Rhos) |-> [rel |-> "rename", k |-> j, arg |-> RenameArg(Rhos[j], arg)]]
